@@ -319,8 +319,26 @@ class Gen:
             return text, False
         if k < 0.93:
             self.features.add('cte')
-            inner, _ = self.simple_select(with_order=False, allow_limit=False, subq=False)
-            return f'WITH cte1 AS ({inner}) SELECT * FROM cte1', False
+            shape = r.choice(['plain', 'plain', 'body-union', 'main-union', 'used-twice', 'joined', 'two-ctes', 'in-subquery'])
+            self.features.add('cte:' + shape)
+            if shape == 'plain':
+                inner, _ = self.simple_select(with_order=False, allow_limit=False, subq=False)
+                return f'WITH cte1 AS ({inner}) SELECT * FROM cte1', False
+            t1, t2 = r.choice(['t1', 't2']), r.choice(['t1', 't2'])
+            a = f'SELECT p.id AS id, p.a AS a FROM {self.qual(t1)} AS p' + r.choice(['', ' WHERE p.a > 0', ' WHERE p.id < 4'])
+            b = f'SELECT q.id AS id, q.a AS a FROM {self.qual(t2)} AS q' + r.choice(['', ' WHERE q.a IS NOT NULL'])
+            op = r.choice(['UNION', 'UNION ALL', 'EXCEPT', 'INTERSECT'])
+            if shape == 'body-union':
+                return f'WITH cte1 AS ({a} {op} {b}) SELECT c.id AS id, c.a AS a FROM cte1 AS c WHERE c.id > 1', False
+            if shape == 'main-union':
+                return f'WITH cte1 AS ({a}) SELECT c.id AS id, c.a AS a FROM cte1 AS c {op} {b}', False
+            if shape == 'used-twice':
+                return f'WITH cte1 AS ({a}) SELECT c.id AS id, d.a AS a FROM cte1 AS c JOIN cte1 AS d ON c.a = d.id', False
+            if shape == 'joined':
+                return f'WITH cte1 AS ({a}) SELECT c.id AS id, q.a AS a FROM cte1 AS c {r.choice(["JOIN", "LEFT JOIN"])} {self.qual(t2)} AS q ON c.id = q.id', False
+            if shape == 'two-ctes':
+                return f'WITH cte1 AS ({a}), cte2 AS (SELECT c.id AS id, c.a AS a FROM cte1 AS c WHERE c.a < 3) SELECT d.id AS id, d.a AS a FROM cte2 AS d', False
+            return f'WITH cte1 AS ({a}) {b} WHERE q.id IN (SELECT c.id FROM cte1 AS c)' if ' WHERE ' not in b else f'WITH cte1 AS ({a}) {b} AND q.id IN (SELECT c.id FROM cte1 AS c)', False
         self.features.add('window')
         t = r.choice(['t1', 't2'])
         fn = r.choice(['row_number()', 'rank()', 'sum(p.id)', 'count(*)'])
@@ -352,3 +370,20 @@ class Gen:
             cols = r.sample(['k INTEGER', 'v TEXT', 'f REAL', 'n INT', 'b BIGINT', 'ts DATE'], r.randint(1, 4))
             return f'CREATE TABLE {self.qual("newt")} ({", ".join(cols)})'
         return f'DROP TABLE {r.choice(["", "IF EXISTS "])}{self.qual(r.choice(["t3", "t2"]))}'
+
+
+def setop_trailing(rng, qual=lambda t: t):
+    """A set operation followed by ORDER BY .. LIMIT: in SQL the trailing clauses belong to the WHOLE set operation.
+    Returns (text, model_text): model_text states the other reading - the clauses bound to the last SELECT only."""
+    r = rng
+    t1, t2 = r.choice([('t1', 't2'), ('t2', 't1'), ('t1', 't1'), ('t2', 't2')])
+    cols = r.choice(['id-a', 'a'])
+    sel = (lambda al: f'{al}.id AS id, {al}.a AS a') if cols == 'id-a' else (lambda al: f'{al}.a AS a')
+    w = lambda al: r.choice(['', '', f' WHERE {al}.a IS NOT NULL', f' WHERE {al}.id > 1', f' WHERE {al}.a IN (1, 2)'])
+    left = f'SELECT {sel("p")} FROM {qual(t1)} AS p{w("p")}'
+    right = f'SELECT {sel("q")} FROM {qual(t2)} AS q{w("q")}'
+    op = r.choice(['UNION', 'UNION', 'UNION ALL', 'EXCEPT', 'INTERSECT'])
+    order = 'id, a' if cols == 'id-a' else 'a'
+    clause = f' ORDER BY {order}{r.choice(["", " DESC"]) if cols == "a" else ""} LIMIT {r.choice([1, 2, 3])}' + r.choice(['', '', ' OFFSET 1'])
+    return f'{left} {op} {right}{clause}', f'{left} {op} SELECT * FROM ({right}{clause})', op
+
